@@ -315,6 +315,13 @@ impl InterfaceInner {
             return;
         }
 
+        // Likewise for packets from raw sockets (`todo!()` in the compression code).
+        #[cfg(feature = "socket-raw")]
+        if matches!(packet.payload, IpPayload::Raw(..)) {
+            net_debug!("dispatch_sixlowpan: dropping, raw payloads are not supported");
+            return;
+        }
+
         // First we calculate the size we are going to need. If the size is bigger than the MTU,
         // then we use fragmentation.
         let (total_size, compressed_size, uncompressed_size) =
